@@ -21,6 +21,6 @@ MCNext == \E s \in Sessions :
     \/ (~ss[s].closed /\ (~d[s].valid \/ (ss[s].replies > 0 /\ ~ss[s].ok)) /\ Closed(s)) /\ last' = "closed"
 MCSpec == MCInit /\ [][MCNext]_mvars
 RelayOnlyAfterSuccess == \A s \in Sessions : (ss[s].upRecv > 0 \/ ss[s].downRecv > 0) => ss[s].replies > 0
-HealthyNotClosed == \A s \in Sessions : (ss[s].ok /\ ~ending) => ~ss[s].closed
+HealthyNotClosed == \A s \in Sessions : (d[s].valid /\ ss[s].ok /\ ~ending) => ~ss[s].closed
 Settled == (~ENABLED MCNext) => Complete
 =============================================================================
